@@ -191,14 +191,14 @@ macro_rules! float_lift {
         let d: Dims = $d;
         let l = <D as Subject<F>>::layout(d);
         let name = format!("{} <-> {}", stringify!($fl), l.type_name);
-        for &v in &[0.0 as $fl, 1.5, -2.25, 1.0 / 3.0, 1e-30, 1e30] {
+        for &v in &[0.0 as $fl, -0.0, 1.5, -2.25, 1.0 / 3.0, 1e-30, 1e30] {
             $st.evaluations += 3;
             let x: D = <D as SupersetOf<$fl>>::from_subset(&v);
             let p = <D as Subject<F>>::parts(&x, d);
             let mut fail = |what: String| {
                 $st.violation(Violation { sig: format!("lift {name} {}", what.split(':').next().unwrap()), case: json!({"conversion": name, "value": v as f64}), what });
             };
-            if p.vals[0] as f64 != (v as F) as f64 || (1..l.nslots()).any(|i| p.alpha(&l, i) != 0.0) {
+            if p.vals[0] as f64 != (v as F) as f64 || (p.vals[0] as f64).is_sign_negative() != (v as f64).is_sign_negative() || (1..l.nslots()).any(|i| p.alpha(&l, i) != 0.0) {
                 fail("from_subset: lifting a float is not a constant with that real part".into());
             }
             if !<D as SupersetOf<$fl>>::is_in_subset(&x) {
